@@ -45,9 +45,12 @@ def run(tier, runner):
     r_w = witness.run_witnesses(runner, w, [(17, True, False)], ['clang++'], {'DTOR': 'vectors of non trivially destructible elements define a destructor'})
     r_sk = round5.shift_keep(vp)
     r_sk.require(1, 'shift_right instantiations for non relocatable element types')
+    from ..rules import seglayout
+    r_seg = seglayout.seg_layout(vp)
+    r_seg.require(40, 'inserting / removing / replacing members of the vector classes x instantiations')
     return {
-        'results': [r_mem, r_re, r_pair, ob['HOLE'], ob['TEMP'], r_tail, r_ov, r_sm, r_lc, r_sk] + r_w,
-        'explanation': 'SHIFT-KEEP: for non relocatable element types shift_right leaves the vacated slots alive (its consumers assign onto them).  Second sentence decided in full for the analysed matrix: MEMOP - in every instantiation whose element type is neither trivially '
+        'results': [r_mem, r_re, r_pair, ob['HOLE'], ob['TEMP'], r_tail, r_ov, r_sm, r_lc, r_sk, r_seg] + r_w,
+        'explanation': 'SEG-LAYOUT: on every normal path of insert / emplace / erase / resize / assign / append / push_back / pop_back / clear every slot is constructed only where no object lives, assigned / destroyed / read only where one lives, no element is move-assigned onto itself, and on return exactly [0, size()) is alive - array-segmentation abstract interpretation over symbolic size, position and count, helpers inlined (the liveness half of "constructed and destroyed exactly once", for every size and position at once).  SHIFT-KEEP: for non relocatable element types shift_right leaves the vacated slots alive (its consumers assign onto them).  Second sentence decided in full for the analysed matrix: MEMOP - in every instantiation whose element type is neither trivially '
                        'copyable nor declared relocatable no memcpy/memmove/realloc (also inside std algorithm bodies) has an E* argument anywhere in the '
                        'resolved call graph, while for relocatable element types such sites exist (non-vacuity); REALLOC-TR - the allocator\'s reallocate is '
                        'reachable only for relocatable element types; PAIR - the overload selected for each archetype treats destination slots the way its '
